@@ -100,6 +100,8 @@ class TruncationTransformer(_PanelToPanelTransformer):
         else:
             idxs = np.arange(self.lower_, self.upper)
 
-        truncate = [pd.Series([series.iloc[idxs] for series in out]) for out in arr]
+        truncate = [
+            pd.Series([pd.Series(series).iloc[idxs] for series in out]) for out in arr
+        ]
 
         return pd.DataFrame(truncate)
